@@ -173,7 +173,7 @@ def block_for(rng, ty, btype, fault=0.0, nested_name=True):
             if rng.random() < 0.7:
                 name = bytes(rng.choice(b"abcdef-1") for _ in range(rng.randint(1, 6))).decode()
                 if rng.random() < 0.3:      # names that need escaping when written as a BCL string literal
-                    name = "".join(rng.choice(['\\', '"', "\t", "\n", "é", "a", " ", "C:\\temp", 'say "hi"', "#", "{"]) for _ in range(rng.randint(1, 3)))
+                    name = "".join(rng.choice(['\\', '"', "\t", "\n", "é", "a", " ", "C:\\temp", 'say "hi"', "#", "{", "v1.2", ".", "db.example.com"]) for _ in range(rng.randint(1, 3)))
             continue
         if rng.random() < 0.15:
             continue                                 # a struct field without a key is fine
@@ -284,6 +284,13 @@ def check_C15(ctx):
         ("ptr", T(fld("Name", STR), fld("Port", INT)), "struct", [dict(t="a", n="", f=[["name", "s646231"], ["port", "i5432"]])]),
         ("ptr", T(fld("Name", STR), fld("Port", INT)), "struct", [dict(t="a", n="", f=[["n_ame", "s646231"]])]),
         ("ptr", dict(k="slice", elem=T(fld("Name", STR))), "slice", [dict(t="a", n="", f=[["NAME", "s78"]]), dict(t="a", n="q", f=[])]),
+        # a nested field of a NAMED struct type whose name does not match the nested block's type; nested names with dots
+        ("ptr", T(fld("Name", STR), fld("Limits", dict(k="named", name="Other"))), "struct",
+         [dict(t="a", n="alpha", f=[["limits.hard", dict(t="limits", n="hard", f=[["solo", "b1"]])]])]),
+        ("ptr", T(fld("Name", STR), fld("Other", dict(k="named", name="Other"))), "struct",
+         [dict(t="a", n="alpha", f=[["other.v1.2", dict(t="other", n="v1.2", f=[["solo", "b1"]])]])]),
+        ("ptr", T(fld("Up", T(fld("Name", STR), fld("X", INT)))), "struct", [dict(t="a", n="", f=[["up.db.example.com", dict(t="up", n="db.example.com", f=[["x", "i1"]])]])]),
+        ("ptr", T(fld("Up", T(fld("Name", STR), fld("X", INT)))), "struct", [dict(t="a", n="", f=[["up..hidden", dict(t="up", n=".hidden", f=[["x", "i1"]])]])]),
         ("ptr", T(fld("Xy", INT)), "struct", [dict(t="a", n="", f=[["x_y", "i1"], ["xy", "i2"]])]),
         ("ptr", T(fld("Xy", INT), fld("Z", STR)), "struct", [dict(t="a", n="", f=[["x_y", "s61"], ["z", "i2"]])]),
         ("ptr", T(fld("Foo_Bar", INT)), "struct", [dict(t="a", n="", f=[["foo_bar", "i1"]])]),
